@@ -55,6 +55,7 @@ def main(argv=None):
     info = harness.setup(tier)
     mod = importlib.import_module('mirsym.props.' + prop.lower())
     G['validate_rate'] = getattr(mod, 'VALIDATE_RATE', {}).get(tier, 0.05 if tier == 'quick' else 0.02)
+    G['xcheck_rate'] = float(os.environ.get('VERIF_XCHECK', '0.002' if tier == 'quick' else '0.004'))
     problems = []
     # ---- encoding validation on the repository-style scenarios
     st_agree = 0
@@ -145,6 +146,7 @@ def main(argv=None):
             'bounds': meta.get('bounds', ''), 'outside_claim': meta.get('outside', ''),
             'selftest_scenarios_agreeing': st_agree,
             'native_replays_of_passing_paths': agg['validated'],
+            'queries_cross_checked_with_cvc5_and_z3_4_8_12': agg['xchecked'],
             'mir_dump': {'bodies': info['mir_bodies'], 'seconds': round(info['mir_seconds'], 1), 'cached': info['mir_cached']},
             'known_findings_reproduced': agg['known_hits'],
             'prelude': extra_info,
